@@ -155,6 +155,17 @@ mod derived {
 		fn abs(&self) -> Value { json!([self.0.abs()]) }
 	}
 
+	/// transparent newtype whose only field is compact: the in-place path must not be taken
+	#[derive(Encode, Decode, DecodeWithMemTracking, Debug, PartialEq, Clone, Copy)]
+	#[repr(transparent)]
+	pub struct STranspC(#[codec(compact)] pub u64);
+	impl Reg for STranspC {
+		fn name() -> String { "STranspC".into() }
+		fn descr() -> Value { tuple_descr(vec![Compact::<u64>::descr()], size_of::<Self>()) }
+		fn gen(g: &mut G) -> Self { STranspC(u64::gen(g)) }
+		fn abs(&self) -> Value { json!([digits(self.0 as u128, 8)]) }
+	}
+
 	#[derive(Encode, Decode, DecodeWithMemTracking, Debug, PartialEq, Clone)]
 	#[repr(transparent)]
 	pub struct STranspBig(pub [u64; 100]);
@@ -258,6 +269,29 @@ mod derived {
 				EIdx::B => json!({"i":2,"fs":[]}),
 				EIdx::C { x } => json!({"i":3,"fs":[x.abs()]}),
 			}
+		}
+	}
+
+	/// every index source at once: attribute wins over discriminant, discriminant over position
+	#[derive(Encode, Decode, DecodeWithMemTracking, Debug, PartialEq, Clone, Copy)]
+	#[cfg_attr(feature = "max-encoded-len", derive(MaxEncodedLen))]
+	pub enum EBoth {
+		#[codec(index = 7)]
+		A = 16,
+		B = 3,
+		#[codec(index = 40)]
+		C,
+		D = 9,
+		E,
+	}
+	impl Reg for EBoth {
+		fn name() -> String { "EBoth".into() }
+		fn descr() -> Value {
+			json!({"k":"enum","sz":size_of::<Self>(),"vs":[variant(7, vec![]), variant(3, vec![]), variant(40, vec![]), variant(9, vec![]), variant(4, vec![])]})
+		}
+		fn gen(g: &mut G) -> Self { *g.pick(&[EBoth::A, EBoth::B, EBoth::C, EBoth::D, EBoth::E]) }
+		fn abs(&self) -> Value {
+			json!({"i": match self { EBoth::A => 1, EBoth::B => 2, EBoth::C => 3, EBoth::D => 4, EBoth::E => 5 }, "fs": []})
 		}
 	}
 
